@@ -27,6 +27,9 @@ type Clause struct {
 }
 
 type LoopContract struct {
+	Steps      []Clause // per-iteration obligations at the back edge; prev(e) = e at the loop head
+	GhostKinds []string // ghost kinds the loop body may change (others must stay as they are)
+	HasGhost   bool
 	Invariants []Clause
 	Decreases  *Clause
 	Unroll     int
@@ -60,6 +63,7 @@ type FuncContract struct {
 	Method string
 	DetWhen    Expr
 	Determines []Expr // byte ranges whose final content must not depend on their initial content
+	GhostKeys []ghostItem // object-specific ghost effects: kind(expr)
 	ModGhost bool // the function has environment effects (sends, spawns, locks ...)
 	NoTerm bool // loops may omit decreases (environment loops)
 	Ghost  []string
@@ -67,6 +71,32 @@ type FuncContract struct {
 
 func (ct *FuncContract) usable() bool {
 	return ct != nil && (len(ct.Ensures) > 0 || ct.HasAssigns || len(ct.Requires) > 0)
+}
+
+type ghostItem struct {
+	Kind string
+	Arg  Expr
+}
+
+// splitGhostItems splits on blanks outside parentheses.
+func splitGhostItems(s string) []string {
+	var out []string
+	depth, last := 0, 0
+	for i := 0; i <= len(s); i++ {
+		if i == len(s) || (s[i] == ' ' && depth == 0) {
+			if strings.TrimSpace(s[last:i]) != "" {
+				out = append(out, strings.TrimSpace(s[last:i]))
+			}
+			last = i + 1
+			continue
+		}
+		if s[i] == '(' {
+			depth++
+		} else if s[i] == ')' {
+			depth--
+		}
+	}
+	return out
 }
 
 type SpecFun struct {
@@ -426,7 +456,22 @@ func (ct *FuncContract) addClause(w, rest, where string) error {
 		ct.NoTerm = true
 	case "ghost":
 		ct.ModGhost = true
-		ct.Ghost = append(ct.Ghost, strings.Fields(rest)...)
+		for _, item := range splitGhostItems(rest) {
+			if strings.Contains(item, "(") {
+				x, err := parseExpr(item)
+				if err != nil {
+					return fmt.Errorf("ghost item %q: %v", item, err)
+				}
+				call, ok := x.(ECall)
+				id, ok2 := call.Fun.(EIdent)
+				if !ok || !ok2 || len(call.Args) != 1 {
+					return fmt.Errorf("ghost item %q: kind(expr) expected", item)
+				}
+				ct.GhostKeys = append(ct.GhostKeys, ghostItem{id.Name, call.Args[0]})
+			} else {
+				ct.Ghost = append(ct.Ghost, item)
+			}
+		}
 	case "requires", "ensures":
 		lab, txt := labelOf(rest)
 		var props []string
@@ -516,6 +561,16 @@ func (ct *FuncContract) addClause(w, rest, where string) error {
 				return fmt.Errorf("decreases %q: %v", body, err)
 			}
 			lc.Decreases = &Clause{Text: body, X: x, Line: where}
+		case "step":
+			lab, txt := labelOf(body)
+			x, err := parseExpr(txt)
+			if err != nil {
+				return fmt.Errorf("step %q: %v", txt, err)
+			}
+			lc.Steps = append(lc.Steps, Clause{Label: lab, Text: txt, X: x, Line: where})
+		case "ghost":
+			lc.HasGhost = true
+			lc.GhostKinds = append(lc.GhostKinds, strings.Fields(body)...)
 		case "unroll":
 			k, err := strconv.Atoi(body)
 			if err != nil {
